@@ -199,6 +199,10 @@ def check(ctx):
     ctx.guard(_generator, ctx)
     ctx.guard(basis, ctx)
     ctx.guard(_shared_c09, ctx)
+    ctx.rule("R09.8", "a moment that is loaded again (a second fit of the same GridSearch, or of the same moment object) recomputes "
+                      "everything the reduction reads from it: no state of an earlier load survives (shared with C19 R19.5)")
+    from .c19 import _reload_completeness
+    ctx.aliased({"R19.5": "R09.8"}, _reload_completeness, ctx)
 
 def _generator(ctx):
     A = Analysis(ctx, no_inline=[GG + ".build_integer_grid"], max_depth=2)
